@@ -439,7 +439,6 @@ func (p *Program) resolveField(ownerPkg, ownerType, field string) string {
 }
 
 func (p *Program) FieldAccesses(ownerPkg, ownerType, field string) []guardedAccess {
-	field = p.resolveField(ownerPkg, ownerType, field)
 	var out []guardedAccess
 	for _, fn := range p.ModFuncs {
 		if !p.Production(fn) {
